@@ -181,8 +181,7 @@ theorem microSpur_ok {fl cfg s p s' p'} (hs : (s', p') ∈ microSpur fl cfg s p)
     rcases hs with hs | hs
     · split at hs
       · rw [Option.mem_toList] at hs
-        have h1 := (sendStep_ok hs).retarget (.bsend t f h sent rest q) rfl rfl rfl rfl
-        exact h1.afterSame (by upd)
+        exact (sendStep_ok hs).retarget (.bsend t f h sent rest q) rfl rfl rfl rfl
       · simp at hs
     · split at hs
       · simp only [mem_singleton] at hs
